@@ -375,7 +375,9 @@ Section PWind.
         intros z Hz. destruct (in_split _ _ Hz) as (l1 & l2 & ->).
         assert (Hlt : b_id y < b_id z).
         { apply (chain_ok_before c U (b :: l1) z (l2 ++ [y] ++ lcp) HU).
-          - cbn [app]. rewrite <- !app_assoc in Hc. cbn [app] in Hc. rewrite <- app_assoc. exact Hc.
+          - assert (Eq : b :: ((l1 ++ z :: l2) ++ [y]) ++ lcp = (b :: l1) ++ z :: l2 ++ [y] ++ lcp)
+              by (cbn [app]; rewrite <- !app_assoc; cbn [app]; reflexivity).
+            rewrite <- Eq. exact Hc.
           - apply in_app_iff. right. now left. }
         lia.
       + exists (r' ++ [y]), []. split; [now rewrite app_nil_r|]. split; [|now left].
@@ -383,7 +385,9 @@ Section PWind.
         * destruct (in_split _ _ Hz) as (l1 & l2 & ->).
           assert (Hlt : b_id y < b_id z).
           { apply (chain_ok_before c U (b :: l1) z (l2 ++ [y] ++ lcp) HU).
-            - cbn [app]. rewrite <- !app_assoc in Hc. cbn [app] in Hc. rewrite <- app_assoc. exact Hc.
+            - assert (Eq : b :: ((l1 ++ z :: l2) ++ [y]) ++ lcp = (b :: l1) ++ z :: l2 ++ [y] ++ lcp)
+                by (cbn [app]; rewrite <- !app_assoc; cbn [app]; reflexivity).
+              rewrite <- Eq. exact Hc.
             - apply in_app_iff. right. now left. }
           assert (d <= b_id y) by (apply Hge, in_app_iff; right; now left). lia.
         * assert (d <= b_id y) by (apply Hge, in_app_iff; right; now left). lia.
@@ -481,7 +485,7 @@ Section PWind.
     { pose proof (p_ring _ _ _ _ _ _ W1') as Hr. rewrite Er in Hr.
       destruct Hys as [->|(y & -> & Ey)]; [now rewrite app_nil_r in Hr|].
       change (b :: rest0 ++ [y]) with ((b :: rest0) ++ [y]) in Hr.
-      apply (ring_ok_drop c U HU _ _ _ _ y Hr); [discriminate| |].
+      apply (ring_ok_drop c _ _ _ _ y Hr); [discriminate| |].
       - eapply pc_sget; [exact W1'|]. rewrite Er. right. apply in_app_iff. right. now left.
       - intros q e Hq He.
         assert (Hsl : slot c (b_id y) = slot c (b_id b)).
@@ -568,7 +572,7 @@ Section PWind.
             rewrite Hy in *. split; intros Hi.
             -- pose proof (pu_spend_older _ _ HU y b0 k HsU Hb0U Hi Ho). lia.
             -- pose proof (pu_key_id _ _ HU y b0 k HsU Hb0U Hi Ho). lia.
-        + rewrite A7. exact A3.
+        + exact A3.
       - rewrite A9. unfold st1 at 1. cbn [last_id]. split.
         + intros h sb. rewrite A4. destruct (hmem h hs) eqn:Em; [discriminate|]. intros Gs.
           assert (Hnd : b_id (s_b sb) <> d).
@@ -600,5 +604,369 @@ Section PWind.
     { intros _. rewrite A9, A10. unfold st1; cbn [last_id last_hash].
       replace (2 * gp_of c + 1 <=? b_id b) with true by (symmetry; apply N.leb_le; lia). repeat split. }
     intros [?|?]; lia.
+  Qed.
+
+  (* ---------------- pstate level ---------------- *)
+  Definition gfun (L : N) : N := if 2 * gp_of c + 1 <=? L then L - gp_of c else 0.
+
+  Definition PInvS (ps : pstate) (lcs lcp : list blk) (x : N) : Prop :=
+    PInv c U (core ps) lcs lcp x /\ gid ps = gfun (last_id (core ps)).
+
+  (* ---------------- unwind_all ---------------- *)
+  Lemma unwind_all_p_ok pre : forall ps rest lcp x,
+    PInvS ps (pre ++ rest) lcp x -> (rest <> [] \/ pre = []) ->
+    exists ps', unwind_all_p c ps (hashes pre) = Ok ps' /\ PInvS ps' rest lcp x
+                /\ same_store (blocks (core ps)) (blocks (core ps'))
+                /\ ring_empty (core ps') = ring_empty (core ps)
+                /\ last_id (core ps') = last_id (core ps) /\ last_hash (core ps') = last_hash (core ps)
+                /\ gid ps' = gid ps.
+  Proof.
+    unfold unwind_all_p.
+    induction pre as [|t pre IH]; intros ps rest lcp x [[W Wn] Hg] Hne; cbn [hashes map unwind_all bind].
+    - exists (mkP (core ps) (gid ps)). cbn [core gid]. split; [reflexivity|]. split; [split; [split|]; assumption|].
+      split; [apply same_store_refl|repeat split].
+    - destruct Hne as [Hne|]; [|discriminate].
+      pose proof (p_lc _ _ _ _ _ _ W t (or_introl eq_refl)) as Gt. rewrite Gt. cbn [s_b].
+      assert (exists p rest', pre ++ rest = p :: rest') as (p & rest' & E).
+      { destruct pre as [|p pre']; cbn [app]; [|eauto]. destruct rest; [contradiction|eauto]. }
+      cbn [app] in W, Wn. rewrite E in W, Wn.
+      rewrite (unwind_block_eq_p _ _ _ _ _ _ _ W Wn). cbn [bind].
+      pose proof (unwound_core _ _ _ _ _ _ _ W Wn) as W'.
+      pose proof (unwound_win _ _ _ _ _ _ _ Gt Wn) as Wn'. rewrite <- E in W', Wn'.
+      destruct (IH (mkP (unwound c (core ps) t p) (gid ps)) rest lcp x) as (ps' & H1 & H2 & H3 & H4 & H5 & H6 & H7).
+      { split; [split; [exact W'|exact Wn']|exact Hg]. }
+      { now left. }
+      cbn [core gid] in *. exists ps'. split; [exact H1|]. split; [exact H2|].
+      split.
+      { eapply same_store_trans; [|exact H3]. unfold unwound; cbn [blocks].
+        unfold get_block in Gt. apply (same_store_flag _ _ _ false Gt). }
+      repeat split; [rewrite H4|rewrite H5|rewrite H6|rewrite H7]; reflexivity.
+  Qed.
+
+  (* ---------------- wind_list_p ---------------- *)
+  Lemma hd_error_app_cons {A} (l : list A) b r1 r2 : hd_error (l ++ b :: r1) = hd_error (l ++ b :: r2).
+  Proof. now destruct l. Qed.
+
+  Lemma wind_p_last ps b ps' :
+    (b_id b <= last_id (core ps) ->
+       last_id (core ps') = last_id (core ps) /\ last_hash (core ps') = last_hash (core ps)) ->
+    (last_id (core ps) < b_id b -> last_id (core ps') = b_id b /\ last_hash (core ps') = b_hash b /\
+       gid ps' = if 2 * gp_of c + 1 <=? b_id b then b_id b - gp_of c else gid ps) ->
+    (b_id b <= last_id (core ps) \/ b_id b <= 2 * gp_of c -> gid ps' = gid ps) ->
+    gid ps = gfun (last_id (core ps)) ->
+    last_from (core ps) (core ps') [b] /\ last_id (core ps) <= last_id (core ps')
+    /\ b_id b <= last_id (core ps') /\ gid ps' = gfun (last_id (core ps')).
+  Proof.
+    intros H1 H2 H3 Hg. destruct (N.le_gt_cases (b_id b) (last_id (core ps))) as [Hle|Hgt].
+    - destruct (H1 Hle) as [E1 E2]. rewrite E1. split; [|split; [lia|split; [lia|]]].
+      + split; [intros M HM _; lia|left; auto].
+      + rewrite (H3 (or_introl Hle)). exact Hg.
+    - destruct (H2 Hgt) as (E1 & E2 & E3). rewrite E1. split; [|split; [lia|split; [lia|]]].
+      + split; [intros M _ HM; rewrite E1; apply HM; now left|right; exists b; split; [now left|auto]].
+      + rewrite E3, Hg. unfold gfun.
+        destruct (N.leb_spec (2 * gp_of c + 1) (b_id b)); [reflexivity|].
+        destruct (N.leb_spec (2 * gp_of c + 1) (last_id (core ps))); [lia|reflexivity].
+  Qed.
+
+  Lemma wind_list_p_ok tb : forall ps cur lcp wnd x,
+    PInvS ps cur lcp x ->
+    (forall b, In b tb -> sget (blocks (core ps)) (b_hash b) = Some b) ->
+    linked_up U tb (cur ++ lcp) ->
+    (cur <> [] \/ tb = [] \/ (lcp = [] /\ exists b, tb = [b] /\ only_block (core ps) b)) ->
+    (forall tb1 b tb2, tb = tb1 ++ b :: tb2 -> forall y, In y tb2 -> b_id b < b_id y) ->
+    exists ps' r, wind_list_p c ps (hashes tb) wnd = Ok (ps', r)
+      /\ ring_empty (core ps') = ring_empty (core ps)
+      /\ exists tbw lcs' lcp',
+           ((forallb b_valid tb = true /\ r = None /\ tbw = tb)
+            \/ (exists bad tb2, tb = tbw ++ bad :: tb2 /\ forallb b_valid tbw = true
+                  /\ b_valid bad = false /\ r = Some (rev (hashes tbw) ++ wnd)))
+           /\ PInvS ps' lcs' lcp' x
+           /\ lcs' ++ lcp' = rev tbw ++ cur ++ lcp
+           /\ hd_error lcs' = hd_error (rev tbw ++ cur)
+           /\ last_from (core ps) (core ps') tbw
+           /\ last_id (core ps) <= last_id (core ps')
+           /\ (forall y, In y tbw -> b_id y <= last_id (core ps'))
+           /\ (forall h y, sget (blocks (core ps')) h = Some y -> sget (blocks (core ps)) h = Some y)
+           /\ (forall h y, sget (blocks (core ps)) h = Some y ->
+                 (forall z, In z tbw -> b_id z < b_id y + 2 * gp_of c) -> sget (blocks (core ps')) h = Some y)
+           /\ ((forall z, In z tbw -> b_id z <= last_id (core ps) \/ b_id z <= 2 * gp_of c) ->
+                 lcs' = rev tbw ++ cur /\ lcp' = lcp /\ same_store (blocks (core ps)) (blocks (core ps'))).
+  Proof.
+    induction tb as [|b tb IH]; intros ps cur lcp wnd x HI Hst Hl Hfirst Hinc; cbn [hashes map wind_list_p].
+    - exists ps, None. split; [reflexivity|]. split; [reflexivity|]. exists [], cur, lcp.
+      split; [left; auto|]. split; [exact HI|]. split; [reflexivity|]. split; [reflexivity|].
+      split; [apply last_from_refl|]. split; [lia|]. split; [intros y []|].
+      split; [auto|]. split; [auto|]. intros _. split; [reflexivity|]. split; [reflexivity|apply same_store_refl].
+    - destruct (sget_get _ _ _ (Hst b (or_introl eq_refl))) as (f & G). rewrite G. cbn [s_b].
+      destruct (b_valid b) eqn:Hv.
+      + destruct Hl as [Hl1 Hl2]. destruct HI as [HP Hg].
+        destruct (wind_p_ok ps b f cur lcp x HP G Hv Hl1) as
+          (ps1 & lcs1 & lcp1 & E1 & HP1 & Eapp & (r0 & Er0) & S1 & S2 & R1 & _ & L1 & L2 & S3).
+        { destruct Hfirst as [?|[?|(-> & b0 & Eb & Ho)]]; [now left|discriminate|].
+          right. split; [reflexivity|]. injection Eb as <- _. exact Ho. }
+        rewrite E1. cbn [bind].
+        assert (Hg3 : b_id b <= last_id (core ps) \/ b_id b <= 2 * gp_of c -> gid ps1 = gid ps).
+        { intros H. now destruct (S3 H) as (_ & _ & ? & _). }
+        destruct (wind_p_last ps b ps1 L1 L2 Hg3 Hg) as (LF1 & Lm1 & Lb1 & Hg1).
+        destruct (IH ps1 lcs1 lcp1 (b_hash b :: wnd) x) as
+          (ps' & r & E2 & R2 & tbw & lcs' & lcp' & D & HI' & Eapp' & Hhd & LF2 & Lm2 & Lb2 & T1 & T2 & T3).
+        { split; assumption. }
+        { intros y Hy. apply S2; [apply Hst; now right|].
+          pose proof (Hinc [] b tb eq_refl y Hy). lia. }
+        { rewrite Eapp. exact Hl2. }
+        { left. rewrite Er0. discriminate. }
+        { intros tb1 b0 tb2 E y Hy. apply (Hinc (b :: tb1) b0 tb2); [now rewrite E|exact Hy]. }
+        exists ps', r. split; [exact E2|]. split; [congruence|].
+        exists (b :: tbw), lcs', lcp'. split.
+        { destruct D as [(D1 & D2 & D3)|(bad & tb2 & D1 & D2 & D3 & D4)].
+          - left. cbn [forallb]. rewrite Hv, D1, D3. auto.
+          - right. exists bad, tb2. cbn [forallb hashes map rev app]. rewrite Hv, D2, <- app_assoc.
+            cbn [app]. subst tb. auto. }
+        split; [exact HI'|].
+        split; [cbn [rev]; rewrite <- app_assoc; cbn [app]; rewrite Eapp', Eapp; reflexivity|].
+        split; [cbn [rev]; rewrite <- app_assoc; cbn [app]; rewrite Hhd, Er0; apply hd_error_app_cons|].
+        split; [apply (last_from_trans _ _ _ [b] tbw LF1 LF2)|]. split; [lia|].
+        split; [intros y [<-|Hy]; [lia|auto]|].
+        split; [intros h y Hs; apply S1, T1, Hs|].
+        split.
+        { intros h y Hs Hz. apply T2; [apply S2; [exact Hs|apply Hz; now left]|].
+          intros z Hz'. apply Hz. now right. }
+        intros Hz. destruct (S3 (Hz b (or_introl eq_refl))) as (-> & -> & _ & SS1).
+        destruct T3 as (-> & -> & SS2).
+        { intros z Hz'. destruct (Hz z (or_intror Hz')) as [?|?]; [left; lia|now right]. }
+        cbn [rev]. rewrite <- app_assoc. cbn [app]. repeat split. eapply same_store_trans; eauto.
+      + exists ps, (Some wnd). split; [reflexivity|]. split; [reflexivity|]. exists [], cur, lcp.
+        split; [right; exists b, tb; cbn [app forallb rev hashes map]; auto|].
+        split; [exact HI|]. split; [reflexivity|]. split; [reflexivity|].
+        split; [apply last_from_refl|]. split; [lia|]. split; [intros y []|].
+        split; [auto|]. split; [auto|]. intros _. split; [reflexivity|]. split; [reflexivity|apply same_store_refl].
+  Qed.
+
+  (* ---------------- small facts ---------------- *)
+  Lemma PInvS_steps ps lcs lcp x n :
+    PInvS ps lcs lcp x -> PInvS (lift (fun st => set_steps st n) ps) lcs lcp x.
+  Proof.
+    intros [[W Wn] Hg]. split; [split|exact Hg].
+    - eapply PCore_ext; [..|exact W]; reflexivity.
+    - eapply PWin_ext; [|exact Wn]. reflexivity.
+  Qed.
+
+  Lemma chain_rev_inc l rest : chain_ok U (l ++ rest) ->
+    forall tb1 z tb2, rev l = tb1 ++ z :: tb2 -> forall y, In y tb2 -> b_id z < b_id y.
+  Proof.
+    intros Hc tb1 z tb2 E y Hy.
+    assert (El : l = rev tb2 ++ z :: rev tb1).
+    { rewrite <- (rev_involutive l), E, rev_app_distr. cbn [rev]. now rewrite <- app_assoc. }
+    apply in_rev in Hy. destruct (in_split _ _ Hy) as (a & b0 & Ea).
+    rewrite El, Ea in Hc. rewrite <- !app_assoc in Hc. cbn [app] in Hc.
+    apply (chain_ok_before c U a y (b0 ++ z :: rev tb1 ++ rest) HU Hc).
+    apply in_app_iff. right. now left.
+  Qed.
+
+  Lemma resync_p_ok ps lcs lcp x : PInvS ps lcs lcp x ->
+    exists ps', resync_last_p ps = Ok ps'
+      /\ blocks (core ps') = blocks (core ps) /\ ring (core ps') = ring (core ps)
+      /\ ring_lc (core ps') = ring_lc (core ps) /\ utxo (core ps') = utxo (core ps)
+      /\ ring_empty (core ps') = ring_empty (core ps) /\ gid ps' = gid ps
+      /\ match lcs with
+         | [] => last_id (core ps') = last_id (core ps) /\ last_hash (core ps') = last_hash (core ps)
+         | t :: _ => last_id (core ps') = b_id t /\ last_hash (core ps') = b_hash t
+         end.
+  Proof.
+    intros [[W Wn] Hg]. unfold resync_last_p, resync_last.
+    rewrite (latest_entry_spec_p c U HU (core ps) lcs (p_store _ _ _ _ _ _ W) (p_ring _ _ _ _ _ _ W)
+               (pc_sget _ _ _ _ W) (pc_inj _ _ _ _ W) (pi_window _ _ _ _ _ W Wn)).
+    cbn [bind]. destruct lcs as [|t l']; eexists; (split; [reflexivity|]); cbn; repeat split.
+  Qed.
+
+  (* ---------------- validate_p ---------------- *)
+  Lemma validate_p_ok ps b newtl oldb common lcp x :
+    PInvS ps (oldb ++ common) lcp x ->
+    last_id (core ps) = tip_id (oldb ++ common) -> last_hash (core ps) = tip_hash (oldb ++ common) ->
+    (forall y, In y (b :: newtl) -> sget (blocks (core ps)) (b_hash y) = Some y) ->
+    linked_dn U (b :: newtl) (common ++ lcp) ->
+    (common <> [] \/ (oldb = [] /\ newtl = [] /\ lcp = [] /\ only_block (core ps) b)) ->
+    (forall tb1 z tb2, rev (b :: newtl) = tb1 ++ z :: tb2 -> forall y, In y tb2 -> b_id z < b_id y) ->
+    (forall pre bad post, rev (b :: newtl) = pre ++ bad :: post -> forallb b_valid pre = true ->
+        b_valid bad = false ->
+        forall y, In y pre -> b_id y <= last_id (core ps) \/ b_id y <= 2 * gp_of c) ->
+    exists ps' ok, validate_p c ps (hashes (b :: newtl)) (hashes oldb) = Ok (ps', ok)
+      /\ ring_empty (core ps') = ring_empty (core ps)
+      /\ ok = (gt_count_valid (core ps) (b_prev b) (b_gt b) && forallb b_valid (b :: newtl))
+      /\ (ok = true -> exists lcs' lcp',
+            PInvS ps' lcs' lcp' x /\ lcs' ++ lcp' = (b :: newtl) ++ common ++ lcp
+            /\ (exists r0, lcs' = b :: r0)
+            /\ (last_id (core ps) < b_id b ->
+                  last_id (core ps') = b_id b /\ last_hash (core ps') = b_hash b)
+            /\ (forall h y, sget (blocks (core ps')) h = Some y -> sget (blocks (core ps)) h = Some y)
+            /\ (forall h y, sget (blocks (core ps)) h = Some y -> b_id b < b_id y + 2 * gp_of c ->
+                  sget (blocks (core ps')) h = Some y))
+      /\ (ok = false ->
+            PInvS ps' (oldb ++ common) lcp x
+            /\ same_store (blocks (core ps)) (blocks (core ps'))
+            /\ last_id (core ps') = last_id (core ps) /\ last_hash (core ps') = last_hash (core ps)
+            /\ gid ps' = gid ps).
+  Proof.
+    intros HI Hla1 Hla2 Hst Hl Hcm Hinc Hnl.
+    set (newb := b :: newtl) in *.
+    destruct (sget_get _ _ _ (Hst b (or_introl eq_refl))) as (f & G).
+    unfold validate_p. change (hashes newb) with (b_hash b :: hashes newtl). cbv iota beta.
+    rewrite G. cbn [s_b]. change (b_hash b :: hashes newtl) with (hashes newb).
+    set (ps0 := lift (fun st => set_steps st 0) ps).
+    pose proof (PInvS_steps _ _ _ _ 0 HI) as HI0. fold ps0 in HI0.
+    assert (S0 : same_store (blocks (core ps)) (blocks (core ps0))) by apply same_store_refl.
+    rewrite <- (gt_count_valid_same (core ps) (core ps0) _ _ S0).
+    destruct (gt_count_valid (core ps) (b_prev b) (b_gt b)) eqn:Egt; cbn [negb andb].
+    2:{ exists ps0, false. split; [reflexivity|]. split; [reflexivity|]. split; [reflexivity|].
+        split; [discriminate|]. intros _. split; [exact HI0|]. split; [exact S0|]. repeat split. }
+    destruct (unwind_all_p_ok oldb ps0 common lcp x HI0) as (ps1 & E1 & HI1 & S1 & R1 & L1 & H1 & G1).
+    { destruct Hcm as [?|[? _]]; auto. }
+    rewrite E1. cbn [bind]. rewrite rev_hashes.
+    assert (Ll : last_id (core ps1) = last_id (core ps)) by (rewrite L1; reflexivity).
+    destruct (wind_list_p_ok (rev newb) ps1 common lcp [] x HI1) as
+      (ps2 & r & E2 & R2 & tbw & lcs2 & lcp2 & D2 & HI2 & Eapp2 & Hhd2 & LF2 & Lm2 & Lb2 & T1 & T2 & T3).
+    { intros y Hy. rewrite <- S1. apply Hst. now apply in_rev. }
+    { now apply linked_dn_up. }
+    { destruct Hcm as [?|(_ & Hn & Hp & Ho)]; [now left|]. right; right. split; [exact Hp|].
+      exists b. unfold newb. rewrite Hn. split; [reflexivity|].
+      intros h sb Gs. pose proof (get_sget _ _ _ Gs) as Ss. rewrite <- S1 in Ss.
+      destruct (sget_get _ _ _ Ss) as (f' & G'). exact (Ho h _ G'). }
+    { exact Hinc. }
+    rewrite E2. cbn [bind].
+    destruct D2 as [(A1 & -> & ->)|(bad & tb2 & A1 & A2 & A3 & ->)].
+    - (* every block of the candidate wound *)
+      rewrite forallb_rev in A1. rewrite rev_involutive in Eapp2, Hhd2.
+      exists (lift (fun st => set_steps st (Nlen (hashes oldb) + Nlen (hashes newb))) ps2), true.
+      split; [reflexivity|]. split; [cbn [lift core set_steps ring_empty]; rewrite R2, R1; reflexivity|].
+      split; [now rewrite A1|]. split; [|discriminate]. intros _.
+      exists lcs2, lcp2. split; [now apply PInvS_steps|]. split; [exact Eapp2|].
+      assert (Er0 : exists r0, lcs2 = b :: r0).
+      { destruct lcs2 as [|t r0]; cbn [hd_error newb app] in Hhd2; [discriminate|].
+        injection Hhd2 as ->. eauto. }
+      split; [exact Er0|]. cbn [lift core set_steps last_id last_hash].
+      split.
+      { intros Hlt.
+        assert (Hids : forall y, In y newtl -> b_id y < b_id b).
+        { intros y Hy. destruct HI2 as [[W2 _] _]. pose proof (p_chain _ _ _ _ _ _ W2) as Hc2.
+          rewrite Eapp2 in Hc2. apply (chain_id_lt_p c U b _ HU Hc2). apply in_app_iff. now left. }
+        destruct LF2 as [LF1' LF2'].
+        assert (Hle : last_id (core ps2) <= b_id b).
+        { apply LF1'; [lia|]. intros y Hy. apply in_rev in Hy. destruct Hy as [<-|Hy]; [lia|].
+          specialize (Hids y Hy). lia. }
+        assert (Hge : b_id b <= last_id (core ps2)) by (apply Lb2; apply -> in_rev; now left).
+        destruct LF2' as [[F1 F2]|(y & Hy & F1 & F2)]; [lia|].
+        apply in_rev in Hy. destruct Hy as [<-|Hy]; [auto|]. specialize (Hids y Hy). lia. }
+      split.
+      { intros h y Hs. apply (eq_trans (S1 h)). apply T1. exact Hs. }
+      intros h y Hs Hlt. apply T2; [now rewrite <- S1|].
+      intros z Hz. apply in_rev in Hz. destruct Hz as [<-|Hz]; [exact Hlt|].
+      assert (b_id z < b_id b); [|lia].
+      destruct HI2 as [[W2 _] _]. pose proof (p_chain _ _ _ _ _ _ W2) as Hc2.
+      rewrite Eapp2 in Hc2. apply (chain_id_lt_p c U b _ HU Hc2). apply in_app_iff. now left.
+    - (* the candidate fails at [bad]; nothing above the window was wound *)
+      assert (Hf : forallb b_valid newb = false).
+      { rewrite <- forallb_rev, A1. now apply forallb_app_false. }
+      rewrite Hf. rewrite app_nil_r, rev_hashes.
+      assert (Hpre : forall z, In z tbw -> b_id z <= last_id (core ps1) \/ b_id z <= 2 * gp_of c).
+      { intros z Hz. rewrite Ll. apply (Hnl tbw bad tb2 A1 A2 A3 z Hz). }
+      destruct (T3 Hpre) as (-> & -> & SS2).
+      assert (Htbw : common = [] -> tbw = []).
+      { intros Hc0. destruct Hcm as [?|(_ & Hn & _)]; [contradiction|].
+        unfold newb in A1. rewrite Hn in A1. cbn [rev app] in A1.
+        destruct tbw as [|? tbw]; [reflexivity|]. destruct tbw; discriminate. }
+      destruct (unwind_all_p_ok (rev tbw) ps2 common lcp x HI2) as (ps3 & E3 & HI3 & S3 & R3 & L3 & H3 & G3).
+      { destruct common; [right; now rewrite Htbw|left; discriminate]. }
+      rewrite E3. cbn [bind].
+      assert (S03 : same_store (blocks (core ps)) (blocks (core ps3))).
+      { eapply same_store_trans; [exact S1|]. eapply same_store_trans; [exact SS2|exact S3]. }
+      (* the last-block bookkeeping moved at most inside the no-purge zone *)
+      assert (Hlb : last_id (core ps) <= last_id (core ps3)
+                    /\ (last_id (core ps3) = last_id (core ps) \/ last_id (core ps3) <= 2 * gp_of c)).
+      { rewrite L3. split; [lia|]. destruct LF2 as [LF1' _].
+        destruct (N.le_gt_cases (last_id (core ps2)) (last_id (core ps))) as [?|Hgt]; [left; lia|right].
+        destruct (N.le_gt_cases (last_id (core ps)) (2 * gp_of c)) as [Hsm|Hbig].
+        - apply LF1'; [lia|]. intros y Hy. destruct (Hpre y Hy); lia.
+        - exfalso. assert (last_id (core ps2) <= last_id (core ps)); [|lia].
+          apply LF1'; [lia|]. intros y Hy. destruct (Hpre y Hy); lia. }
+      assert (Hgf : gfun (last_id (core ps3)) = gfun (last_id (core ps))).
+      { destruct Hlb as [Hlb1 [->|Hlb2]]; [reflexivity|]. unfold gfun.
+        destruct (N.leb_spec (2 * gp_of c + 1) (last_id (core ps3))); [lia|].
+        destruct (N.leb_spec (2 * gp_of c + 1) (last_id (core ps))); [lia|reflexivity]. }
+      pose proof HI as [[W Wn] Hg].
+      (* rebuilding the window facts of the original state on a state with the same stored blocks *)
+      assert (Hwin : forall ps', same_store (blocks (core ps)) (blocks (core ps')) ->
+                 PWin c (core ps') (oldb ++ common) lcp (last_id (core ps))).
+      { intros ps' Hss. destruct Wn as [N1 N2 N3]. split; auto.
+        intros h sb Gs. pose proof (get_sget _ _ _ Gs) as Ss. rewrite <- Hss in Ss.
+        destruct (sget_get _ _ _ Ss) as (f' & G'). apply (N1 _ _ G'). }
+      destruct oldb as [|o oldb'].
+      + cbn [hashes map app] in *.
+        destruct (resync_p_ok ps3 common lcp x HI3) as (ps4 & E4 & B1 & B2 & B3 & B4 & B5 & B6 & B7).
+        rewrite E4. cbn [bind].
+        assert (Hl4 : last_id (core ps4) = last_id (core ps) /\ last_hash (core ps4) = last_hash (core ps)).
+        { destruct common as [|t l'].
+          - destruct B7 as [-> ->]. rewrite L3, H3. rewrite (Htbw eq_refl) in LF2.
+            destruct LF2 as [_ [[F1 F2]|(y & [] & _)]]. rewrite F1, F2, L1, H1. split; reflexivity.
+          - destruct B7 as [-> ->]. cbn [tip_id tip_hash] in Hla1, Hla2. auto. }
+        destruct Hl4 as [Hl4 Hh4].
+        eexists (lift (fun st => set_steps st _) ps4), false. split; [reflexivity|].
+        split; [cbn [lift core set_steps ring_empty]; rewrite B5, R3, R2, R1; reflexivity|].
+        split; [reflexivity|]. split; [discriminate|]. intros _.
+        assert (S04 : same_store (blocks (core ps)) (blocks (core ps4))) by (rewrite B1; exact S03).
+        split.
+        { apply PInvS_steps. destruct HI3 as [[W3 _] Hg3]. split; [split|].
+          - eapply PCore_ext; [..|exact W3]; assumption.
+          - rewrite Hl4. apply (Hwin ps4 S04).
+          - rewrite B6, Hl4, G3. destruct HI2 as [_ Hg2]. rewrite Hg2, <- L3. exact Hgf. }
+        split; [exact S04|]. cbn [lift core set_steps last_id last_hash gid].
+        split; [exact Hl4|]. split; [exact Hh4|].
+        rewrite B6, G3. destruct HI2 as [_ Hg2]. rewrite Hg2, <- L3, Hgf. now symmetry.
+      + set (oldb := o :: oldb') in *.
+        assert (Hcne : common <> []) by (destruct Hcm as [?|[? _]]; [assumption|discriminate]).
+        change (hashes oldb) with (b_hash o :: hashes oldb') at 4. cbv iota beta.
+        change (b_hash o :: hashes oldb') with (hashes oldb). rewrite rev_hashes.
+        destruct (wind_list_p_ok (rev oldb) ps3 common lcp [] x HI3) as
+          (ps4 & r4 & E4 & R4 & tbw4 & lcs4 & lcp4 & D4 & HI4 & Eapp4 & Hhd4 & LF4 & Lm4 & Lb4 & U1 & U2 & U3).
+        { intros y Hy. rewrite <- S03. eapply pc_sget; [exact W|]. apply in_app_iff. left. now apply in_rev. }
+        { apply linked_dn_up, chain_ok_linked_dn. rewrite app_assoc. apply (p_chain _ _ _ _ _ _ W). }
+        { now left. }
+        { apply (chain_rev_inc oldb (common ++ lcp)). rewrite app_assoc. apply (p_chain _ _ _ _ _ _ W). }
+        rewrite E4. cbn [bind fst snd].
+        assert (Hvo : forallb b_valid (rev oldb) = true).
+        { apply forallb_forall. intros y Hy. apply in_rev in Hy.
+          eapply chain_ok_valid; [apply (p_chain _ _ _ _ _ _ W)|]. apply in_app_iff. left.
+          apply in_app_iff. now left. }
+        destruct D4 as [(B1 & -> & ->)|(bad' & tc2 & B1 & B2 & B3 & _)].
+        2:{ exfalso. rewrite B1 in Hvo. rewrite (forallb_app_false _ _ _ _ B3) in Hvo. discriminate. }
+        destruct U3 as (-> & -> & SS4).
+        { intros z Hz. left. apply in_rev in Hz.
+          pose proof (p_tip _ _ _ _ _ Wn z (proj2 (in_app_iff _ _ _) (or_introl Hz))). lia. }
+        rewrite rev_involutive in HI4.
+        destruct (resync_p_ok ps4 (oldb ++ common) lcp x HI4) as (ps5 & E5 & C1 & C2 & C3 & C4 & C5 & C6 & C7).
+        rewrite E5. cbn [bind].
+        assert (Hl5 : last_id (core ps5) = last_id (core ps) /\ last_hash (core ps5) = last_hash (core ps)).
+        { unfold oldb in C7. cbn [app] in C7. unfold oldb in Hla1, Hla2. cbn [app tip_id tip_hash] in Hla1, Hla2.
+          destruct C7 as [-> ->]. auto. }
+        destruct Hl5 as [Hl5 Hh5].
+        assert (S05 : same_store (blocks (core ps)) (blocks (core ps5))).
+        { rewrite C1. eapply same_store_trans; [exact S03|exact SS4]. }
+        (* gid: nothing moved outside the no-purge zone *)
+        assert (Hg4 : gid ps4 = gid ps).
+        { destruct HI4 as [_ Hg4]. rewrite Hg4, Hg.
+          assert (last_id (core ps4) = last_id (core ps3)).
+          { destruct LF4 as [LF1' _]. apply N.le_antisymm; [|exact Lm4].
+            apply LF1'; [lia|]. intros y Hy. apply in_rev in Hy.
+            pose proof (p_tip _ _ _ _ _ Wn y (proj2 (in_app_iff _ _ _) (or_introl Hy))). lia. }
+          rewrite H. exact Hgf. }
+        eexists (lift (fun st => set_steps st _) ps5), false. split; [reflexivity|].
+        split; [cbn [lift core set_steps ring_empty]; rewrite C5, R4, R3, R2, R1; reflexivity|].
+        split; [reflexivity|]. split; [discriminate|]. intros _.
+        split.
+        { apply PInvS_steps. destruct HI4 as [[W4 _] _]. split; [split|].
+          - eapply PCore_ext; [..|exact W4]; assumption.
+          - rewrite Hl5. apply (Hwin ps5 S05).
+          - rewrite C6, Hl5, Hg4. exact Hg. }
+        split; [exact S05|]. cbn [lift core set_steps last_id last_hash gid].
+        split; [exact Hl5|]. split; [exact Hh5|]. now rewrite C6.
   Qed.
 End PWind.
